@@ -477,6 +477,13 @@ def normalize_trivial(red_op, bin_op, reduced_vars, term):
     return term
 
 
+def _binary_output(bin_op, terms):
+    return reduce(
+        lambda lhs, rhs: find_domain(bin_op, lhs, rhs),
+        [v.output for v in reversed(terms)],
+    )
+
+
 @normalize.register(Contraction, AssociativeOp, AssociativeOp, frozenset, tuple)
 def normalize_contraction_generic_tuple(red_op, bin_op, reduced_vars, terms):
     if not reduced_vars and red_op is not ops.null:
@@ -502,7 +509,10 @@ def normalize_contraction_generic_tuple(red_op, bin_op, reduced_vars, terms):
         )
         if not new_terms:  # everything was a unit
             new_terms = (terms[0],)
-        return Contraction(red_op, bin_op, reduced_vars, *new_terms)
+        # Dropping a unit must not change the declared output domain, e.g.
+        # Variable("i", Bint[3]) + 0.0 is real-valued.
+        if _binary_output(bin_op, new_terms) == _binary_output(bin_op, terms):
+            return Contraction(red_op, bin_op, reduced_vars, *new_terms)
 
     for i, v in enumerate(terms):
         if not isinstance(v, Contraction):
